@@ -551,4 +551,79 @@ theorem copyObj_sep (h : Heap) (o : Nat) (wo : WFT h o) :
   · intro q hq
     exact (fr q hq).wf
 
+/-- `insert_deriv` with an ALIASED operand `d` (any allocated, well-formed object — e.g. the other object or one of
+    its derivatives): the call itself does not change anything observable of `y` and both stay well-formed.
+    (Separation is NOT preserved: the new derivative shares `d`'s ndarrays — see the counterexample in Props.) -/
+theorem insertAlias_other (h : Heap) (x y k d : Nat) (sep : SepT h x y) (wx : WFT h x) (wy : WFT h y)
+    (wd : WF h d) :
+    SameObsT h (insertAlias h x k d) y ∧ WFT (insertAlias h x k d) x ∧ WFT (insertAlias h x k d) y := by
+  simp only [insertAlias]
+  split
+  · exact ⟨SameObsT.refl _ _, wx, wy⟩
+  · have hxn : x < h.next := (wx x (root_mem h x)).1
+    generalize hh : ({ h with
+        obj := upd (upd h.obj h.next ⟨(h.obj d).vals, (h.obj d).mask, (h.obj d).units, [], (h.obj d).ro⟩) x
+                 { h.obj x with derivs := (k, h.next) :: (h.obj x).derivs.filter (fun p => p.1 != k) },
+        next := h.next + 1 } : Heap) = h'
+    have hnext : h'.next = h.next + 1 := by rw [← hh]
+    have harr : h'.arr = h.arr := by rw [← hh]
+    have hbuf : h'.buf = h.buf := by rw [← hh]
+    have hobjx : h'.obj x = { h.obj x with derivs := (k, h.next) :: (h.obj x).derivs.filter (fun p => p.1 != k) } := by
+      rw [← hh]; show upd (upd h.obj h.next _) x _ x = _; simp
+    have hobjn : h'.obj h.next = ⟨(h.obj d).vals, (h.obj d).mask, (h.obj d).units, [], (h.obj d).ro⟩ := by
+      rw [← hh]; show upd (upd h.obj h.next _) x _ h.next = _
+      rw [upd_other _ _ _ _ (by omega)]; simp
+    have hobjo : ∀ u, u ≠ x → u < h.next → h'.obj u = h.obj u := by
+      intro u hu hun; rw [← hh]; show upd (upd h.obj h.next _) x _ u = _
+      rw [upd_other _ _ _ _ hu, upd_other _ _ _ _ (by omega)]
+    have ext : Ext h h' := ⟨by rw [hnext]; omega, fun a _ => by rw [harr]⟩
+    have keeps : ∀ u, u < h.next → KeepsOwn h h' u := by
+      intro u hun; unfold KeepsOwn
+      by_cases e : u = x
+      · subst e; rw [hobjx]; exact ⟨rfl, rfl⟩
+      · rw [hobjo u e hun]; exact ⟨rfl, rfl⟩
+    have hxy : y ≠ x := fun e => (sep x (root_mem h x) y (root_mem h y)).1 e.symm
+    have hyn : y < h.next := (wy y (root_mem h y)).1
+    have reachy : h'.reachObjs y = h.reachObjs y := by
+      simp [Heap.reachObjs, hobjo y hxy hyn]
+    have reachx : ∀ p, p ∈ h'.reachObjs x → p = h.next ∨ p ∈ h.reachObjs x := by
+      intro p hp
+      simp only [Heap.reachObjs, hobjx, List.map_cons, List.mem_cons] at hp ⊢
+      rcases hp with e | e | hp
+      · exact Or.inr (Or.inl e)
+      · exact Or.inl e
+      · exact Or.inr (Or.inr (filter_map_sub _ k p hp))
+    have wfN : WF h' h.next := by
+      refine ⟨by rw [hnext]; omega, fun a ha => ?_⟩
+      have ha' : Owns h d a := by unfold Owns at *; rw [hobjn] at ha; exact ha
+      obtain ⟨a1, a2⟩ := wd.2 a ha'
+      rw [harr, hnext]; exact ⟨by omega, by omega⟩
+    refine ⟨?_, ?_, ?_⟩
+    · intro q hq
+      obtain ⟨q1, _⟩ := wy q hq
+      have hqx : q ≠ x := fun e => (sep x (root_mem h x) q hq).1 e.symm
+      refine ⟨hobjo q hqx q1, fun a _ => ?_⟩
+      rw [harr, hbuf]; exact ⟨rfl, rfl⟩
+    · intro p hp
+      rcases reachx p hp with e | hp'
+      · subst e; exact wfN
+      · exact wf_frame ext (keeps p (wx p hp').1) (wx p hp')
+    · intro q hq
+      rw [reachy] at hq
+      exact wf_frame ext (keeps q (wy q hq).1) (wy q hq)
+
+theorem copyFlat_units (h : Heap) (o : Nat) :
+    ((copyFlat h o).1.obj (copyFlat h o).2).units = (h.obj o).units := by
+  cases ev : (h.obj o).vals <;> cases em : (h.obj o).mask <;> simp [copyFlat, copyArrRef, ev, em, upd]
+
+/-- `copy()` keeps the reference to the SAME Units object (units are shared by reference, by design) -/
+theorem copyObj_units (h : Heap) (o : Nat) :
+    ((copyObj h o).1.obj (copyObj h o).2).units = (h.obj o).units := by
+  obtain ⟨f1, _, _⟩ := copyFlat_region h o
+  obtain ⟨ag2, _, _, _⟩ := copyDerivs_spec (h.obj o).derivs (copyFlat h o).1
+  have e := (ag2 _ f1.2.1).2.2.2
+  have e0 := copyFlat_units h o
+  simp only [copyObj, upd_same]
+  rw [e]; exact e0
+
 end PMV.Heap
